@@ -47,11 +47,14 @@ func pathsTo(fn *ssa.Function, from, to *ssa.BasicBlock) (paths [][]condEdge, ok
 	ok = true
 	onPath := map[*ssa.BasicBlock]bool{}
 	var cur []condEdge
+	var order []*ssa.BasicBlock
 	var dfs func(b *ssa.BasicBlock)
 	dfs = func(b *ssa.BasicBlock) {
 		if !ok {
 			return
 		}
+		order = append(order, b)
+		defer func() { order = order[:len(order)-1] }()
 		if b == to {
 			if len(paths) >= maxPaths {
 				ok = false
@@ -68,15 +71,22 @@ func pathsTo(fn *ssa.Function, from, to *ssa.BasicBlock) (paths [][]condEdge, ok
 				ifc = i.Cond
 			}
 		}
+		known := -1
+		if ifc != nil {
+			ifc, known = resolveCondOnPath(ifc, order)
+		}
 		for si, s := range b.Succs {
 			if onPath[s] || !canReach[s] {
 				continue
 			}
-			if ifc != nil {
+			if known >= 0 && (si == 0) != (known == 1) {
+				continue // the branch condition is a constant on this path (a materialised && / ||)
+			}
+			if ifc != nil && known < 0 {
 				cur = append(cur, condEdge{ifc, si == 0})
 			}
 			dfs(s)
-			if ifc != nil {
+			if ifc != nil && known < 0 {
 				cur = cur[:len(cur)-1]
 			}
 		}
@@ -84,6 +94,66 @@ func pathsTo(fn *ssa.Function, from, to *ssa.BasicBlock) (paths [][]condEdge, ok
 	dfs(from)
 	return paths, ok
 }
+
+// resolveCondOnPath looks through a boolean phi (the value form of a && b, a || b, e.g. the case
+// expression of a tagless switch): on a given block path the phi's value is the edge of the
+// predecessor the path came through. It returns the resolved condition (polarity folded into a
+// NOT chain is left to normLit) and 1/0 when it is the constant true/false on this path, -1 otherwise.
+func resolveCondOnPath(cond ssa.Value, order []*ssa.BasicBlock) (ssa.Value, int) {
+	neg := false
+	v := cond
+	for i := 0; i < 16; i++ {
+		switch x := v.(type) {
+		case *ssa.UnOp:
+			if x.Op == token.NOT {
+				v, neg = x.X, !neg
+				continue
+			}
+		case *ssa.Phi:
+			pb := x.Block()
+			idx := -1
+			for k := len(order) - 1; k > 0; k-- {
+				if order[k] == pb {
+					for pi, p := range pb.Preds {
+						if p == order[k-1] {
+							idx = pi
+						}
+					}
+					break
+				}
+			}
+			if idx < 0 {
+				return cond, -1
+			}
+			v = x.Edges[idx]
+			continue
+		case *ssa.Const:
+			if x.Value != nil && x.Value.Kind() == constant.Bool {
+				b := constant.BoolVal(x.Value)
+				if neg {
+					b = !b
+				}
+				if b {
+					return cond, 1
+				}
+				return cond, 0
+			}
+		}
+		break
+	}
+	if v == cond {
+		return cond, -1
+	}
+	if neg {
+		// keep the NOT chain of the original around the resolved value: rebuild is not possible in SSA,
+		// so report the resolved value with inverted polarity through a marker UnOp-free path
+		return &negated{Value: v}, -1
+	}
+	return v, -1
+}
+
+// negated wraps a resolved phi edge whose use site was under an odd number of NOTs.
+type negated struct{ ssa.Value }
 
 // Lit is a normalised branch literal.
 type Lit struct {
@@ -132,6 +202,10 @@ func normLit(e condEdge) Lit {
 	for {
 		if u, ok := v.(*ssa.UnOp); ok && u.Op == token.NOT {
 			v, pol = u.X, !pol
+			continue
+		}
+		if n, ok := v.(*negated); ok {
+			v, pol = n.Value, !pol
 			continue
 		}
 		break
